@@ -326,4 +326,37 @@ theorem sequencePipeline_relabel (hf : GoodRelabel f) (base : List (Option Int))
   rw [calculatePaths_relabel hf, resetSequences_relabel hf, resetSequenceNumbers_relabel hf,
       seqOutput_relabelRest hf]
 
+/-! ### an inheritance chain -/
+
+theorem seqs_relabelRest (l : List SeqAttr) :
+    (l.map (relabelRest f)).map (·.sequence) = l.map (·.sequence) := by
+  rw [List.map_map]; rfl
+
+theorem renumberChainFrom_relabel (hf : GoodRelabel f) :
+    ∀ (chain : List (List SeqAttr)) (base : List (Option Int)),
+      renumberChainFrom base (chain.map (List.map (relabelAttr f)))
+        = (renumberChainFrom base chain).map (List.map (relabelRest f))
+  | [], _ => rfl
+  | c :: rest, base => by
+    simp only [List.map_cons, renumberChainFrom]
+    rw [resetSequenceNumbers_relabel hf, seqs_relabelRest, renumberChainFrom_relabel hf rest]
+
+/-- **Whole inheritance chain**: relabelling every id of every class of the chain
+changes nothing in what is generated for any of them. -/
+theorem sequencePipelineChain_relabel (hf : GoodRelabel f) (chain : List (List SeqAttr)) :
+    (sequencePipelineChain (chain.map (List.map (relabelAttr f)))).map seqOutput
+      = (sequencePipelineChain chain).map seqOutput := by
+  unfold sequencePipelineChain
+  have h12 : (chain.map (List.map (relabelAttr f))).map
+        (fun attrs => resetSequences (calculatePaths attrs))
+      = (chain.map (fun attrs => resetSequences (calculatePaths attrs))).map (List.map (relabelAttr f)) := by
+    rw [List.map_map, List.map_map]
+    apply List.map_congr_left
+    intro attrs _
+    simp only [Function.comp, calculatePaths_relabel hf, resetSequences_relabel hf]
+  rw [h12, renumberChainFrom_relabel hf, List.map_map]
+  apply List.map_congr_left
+  intro c _
+  simp only [Function.comp, seqOutput_relabelRest hf]
+
 end Xs.Codegen
